@@ -75,18 +75,18 @@ def build_world(root, cube, K, ulo, uhi, nd, c, fmt, memmap, r):
     return d, ft, dist, names
 
 
-def replay_group(key, behs, root, seed):
+def replay_group(key, behs, root, seed, pid='C02', formats=(('perfile', False), ('cube', False), ('cube', True))):
     from astropy import units as u
     col = Collector()
     c, k, r_, nd = key
     b0 = behs[0]
     rng = random.Random(seed + c * 1000 + k * 100 + r_ * 10 + nd)
     ratio = 10 if (c == 1 or rng.random() < 0.5) else 2
-    for fmt, memmap in (('perfile', False), ('cube', False), ('cube', True)):
+    for fmt, memmap in formats:
         try:
             d, ft, dist, names = build_world(root, b0['cube'], b0['K'], b0['ulo'], b0['uhi'], nd, c, fmt, memmap, ratio)
         except Exception as e:
-            col.violation('C02:load_raised:%s:%s' % (fmt, type(e).__name__), 'building a fitter on a %s package (memmap=%s, %d distances ratio %d) raised %r' % (fmt, memmap, nd, ratio, e),
+            col.violation('%s:load_raised:%s:%s' % (pid, fmt, type(e).__name__), 'building a fitter on a %s package (memmap=%s, %d distances ratio %d) raised %r' % (fmt, memmap, nd, ratio, e),
                           {'cfg': b0['cfg'], 'cube': b0['cube']})
             continue
         tol = 3e-6 if memmap else 1e-9
@@ -99,7 +99,7 @@ def replay_group(key, behs, root, seed):
                 odv = np.asarray(od.to(u.kpc).value)
                 col.replayed += 1
                 if len(odv) != nd or any(abs(odv[i] - dist[i]) > 1e-9 * dist[i] for i in range(min(nd, len(odv)))):
-                    col.violation('C02:grid', 'distance grid %r, spec %r (range %r..%r kpc, step %g dex)' % (odv.tolist(), dist, dist[0], dist[-1], math.log10(ratio) * 1.0001), desc0)
+                    col.violation('%s:grid' % pid, 'distance grid %r, spec %r (range %r..%r kpc, step %g dex)' % (odv.tolist(), dist, dist[0], dist[-1], math.log10(ratio) * 1.0001), desc0)
                     continue
                 fl = np.asarray(ofl.to(u.mJy).value)
                 badc = None
@@ -116,7 +116,7 @@ def replay_group(key, behs, root, seed):
                     if badc:
                         break
                 if badc:
-                    col.violation('C02:cube:%s' % fmt, badc, desc0)
+                    col.violation('%s:cube:%s' % (pid, fmt), badc, desc0)
                     continue
             else:
                 col.extra['stage_A_not_observed'] = col.extra.get('stage_A_not_observed', 0) + 1
@@ -160,12 +160,35 @@ def replay_group(key, behs, root, seed):
                             if not fw.fclose(obs['pred'][i_][j], float(frac(f['pred20'][j])) / 20.0, 1e-7, 1e-7):
                                 bad.append('%s: predicted log flux band %d %r, spec %r' % (nm_, j, obs['pred'][i_][j], float(frac(f['pred20'][j])) / 20.0))
                 if bad:
-                    col.violation('C02:fit:%s' % fmt, '%s package%s: %s' % (fmt, ' (memmap)' if memmap else '', '; '.join(bad[:3])),
+                    col.violation('%s:dist_fit:%s' % (pid, fmt) if pid != 'C02' else 'C02:fit:%s' % fmt, '%s package%s: %s' % (fmt, ' (memmap)' if memmap else '', '; '.join(bad[:3])),
                                   dict(desc0, src=b['src'], K=b['K'], av_range=[b['ulo'] / 4.0, b['uhi'] / 4.0], expected_rows=b['rows'], observed=obs))
                     break
         finally:
             shutil.rmtree(d, ignore_errors=True)
     return col
+
+
+def dist_stage(ctx, pid, mod, formats=(('perfile', False),)):
+    """the distance-dependent mode for properties that quantify over both fitting modes (C03, C04, C11):
+    MC_FitDist behaviours replayed on one fitter per configuration (so histories are exercised too)"""
+    cfg = ctx.tmp('fd_%s.cfg' % pid)
+    with open(cfg, 'w') as f:
+        f.write('SPECIFICATION Spec\nCONSTANTS\n  Flags = {0, 1, 2, 3, 4, 9}\n  YS = {4, 8, 11}\n  QS = {1, 2, 3}\n  SampleMod = %d\n  SampleRes = %d\n'
+                'INVARIANT OptimalAtEachDistance\nINVARIANT ChiIsGridMinimum\nINVARIANT EmitInv\nCHECK_DEADLOCK FALSE\n' % (mod, ctx.seed % mod))
+    res = model_check(ctx, 'MC_FitDist', cfg, timeout=3000, coverage=False)
+    em = [v for v in res['emitted'] if isinstance(v, dict) and 'rows' in v]
+    import random as _r
+    _r.Random(ctx.seed).shuffle(em)
+    root = ctx.mkdtemp('dist_%s' % pid)
+    groups = {}
+    for b in em:
+        k = (b['cfg']['c'], b['cfg']['k'], b['cfg']['r'], b['cfg']['nd'])
+        groups.setdefault(k, []).append(b)
+    items = sorted(groups.items())
+    for cols in pmap(lambda ch: [replay_group(k, bs, root, ctx.seed, pid=pid, formats=formats) for k, bs in ch], items, chunks_per_proc=1):
+        for col in cols:
+            col.merge_into(ctx)
+    ctx.notes['dist_mode_behaviours'] = len(em)
 
 
 def grid_sizes(ctx, table, root):
